@@ -35,6 +35,10 @@ def configs(quick):
     out = []
     for tp in (0.0, None, 0.5, 1.0, 0.6j):
         out.append(dict(dev="bar", tp=tp, cur={"source": 4.0, "drain": -4.0}, A=0.4, opts=dict(dt_init=1e-2, adaptive=False)))
+    # the same device object meshed again, finer (Triangle inserts new boundary vertices, some inside the terminals),
+    # after it has been used for the runs above
+    out.append(dict(dev="bar", tp=0.0, remesh=0.55, cur={"source": 4.0, "drain": -4.0}, A=0.4, opts=dict(dt_init=5e-3, adaptive=False)))
+    out.append(dict(dev="bar", tp=0.5, remesh=1.3, cur={"source": 4.0, "drain": -4.0}, A=0.4, opts=dict(dt_init=1e-2, adaptive=False)))
     out.append(dict(dev="cross4", tp=0.0, cur={"source": 5.0, "drain": -2.0, "top": -3.5, "bottom": 0.5}, A=ramp, opts=dict(dt_init=2e-3, dt_max=2e-2, adaptive=True, adaptive_window=2)))
     out.append(dict(dev="bar3", tp=0.5, cur=None, A=0.6, opts=dict(dt_init=1e-2, adaptive=False, include_screening=True, screening_tolerance=1e-2)))
     if not quick:
@@ -54,8 +58,16 @@ def eval_config(ctx, cfg, with_model=True):
     else:
         ctx.count("solves_on_a_reused_device")
     dev = cache[cfg["dev"]]
+    if cfg.get("remesh"):
+        for fac in (1.0, 0.93, 1.07, 0.85):
+            try:
+                dev.make_mesh(max_edge_length=cfg["remesh"] * dev.layer.coherence_length * fac)
+                break
+            except ValueError:
+                continue
+        ctx.count("runs_after_remeshing_a_used_device")
     tp = cfg["tp"]
-    tag = dict(device=cfg["dev"], terminal_psi=(None if tp is None else [complex(tp).real, complex(tp).imag]), screening=bool(cfg["opts"].get("include_screening")))
+    tag = dict(device=cfg["dev"], terminal_psi=(None if tp is None else [complex(tp).real, complex(tp).imag]), screening=bool(cfg["opts"].get("include_screening")), remeshed=cfg.get("remesh"), sites=len(dev.mesh.sites))
     first = None
 
     def fail(key, what, **extra):
@@ -77,7 +89,7 @@ def eval_config(ctx, cfg, with_model=True):
     moved = np.zeros(len(psi0), dtype=bool)
     for fr in frames:
         psi = fr["data"]["psi"]
-        ctx.case((cfg["dev"], str(tp), fr["step"]), nontrivial=fr["step"] > 0)
+        ctx.case((cfg["dev"], str(tp), cfg.get("remesh"), bool(cfg["opts"].get("include_screening")), fr["step"]), nontrivial=fr["step"] > 0)
         ctx.count(f"terminal_psi={tp}")
         if tp is not None:
             if not np.all(psi[tsites] == tp):
